@@ -48,8 +48,11 @@ CLAIMED["C20"] = ("AwsBuilder.tla configurations enumerated by TLC with the prop
                   "Every configuration of the alphabet (client id absent / empty / given; connect and client options; 5 / 3.1.1; drain policy and retry limit set or not; mTLS, unsigned and signed custom authentication with raw and pre-encoded signatures, user name, password) is put through the real builders; MonC20 checks non-empty / preserved client id, preservation of every other option, the custom-auth user name (query string parsed, parameters decoded back, signature percent-encoded exactly once) and the 3.1.1 defaults rule; outputs are also compared with AwsBuilder.tla's.",
                   "verif accessors repeat the trivial prelude of build_tokio/build_threaded; SigV4 and TLS out of scope", "7/C20")
 
+CLAIMED["C13"] = ("BytePump.tla model-checked by TLC (write loop with cursor, WebSocket adapter as written, command channel and result mechanisms; recorded defects rediscovered when switched on); regression, random and TLC-enumerated fragmentation scripts run on the real tokio client (scripted transport) and the real threaded client (scripted non-blocking transport, WebSocket over loopback); TLA+ monitor MonC13 folded by TLC over the recorded packets and results",
+                  "TLC checks, over all partial-write / would-block / fragmentation behaviours of the bounded model, that the transport gets exactly the produced bytes in order, that received bytes (WebSocket: concatenated binary payloads of any size, several per read) reach the engine in order, and that every submitted operation gets exactly one result also around loop exit; the real tokio and threaded clients are driven over transports that accept 1..n bytes, stall, fragment reads, and over a WebSocket on loopback (every fragmentation TLC enumerated, stalled reader), and MonC13 judges the packets the transport received, the publishes surfaced and the result of every operation.",
+                  "packet-level judgement through the reference codec (tagged payloads); real-time threaded runs; third-party adapters (tokio-tungstenite, TLS) outside the model", "7/C13")
+
 NOT_YET = {
- "C13": "check under construction (BytePump.tla and real-client runs); not claimed yet",
 }
 
 checks = []
